@@ -213,10 +213,19 @@ func perm(r *vf.Run, specs []tbl.PathSpec) {
 				o2 := observe(lr2, byID)
 				r.Eval(1)
 				if firstRem[j] == nil {
-					oc := o2
+					// reference: a table that only ever saw the remaining candidates (the selection must be a function
+					// of the current candidate set, not of the history that led to it)
+					lr3 := locRIB.New("c02")
+					for i := range specs {
+						if i != j {
+							lr3.AddPath(pfx, specs[i].Build())
+						}
+					}
+					oc := observe(lr3, byID)
 					firstRem[j] = &oc
-				} else if o2 != *firstRem[j] {
-					r.Violate(vf.Violation{Clause: "order-dependence", Features: vf.F("mix", mix, "attrs", union(specs), "phase", "remove"), Detail: fmt.Sprintf("after removing #%d: order %v gives best={%s} ecmp={%s}, an earlier order gave best={%s} ecmp={%s}; candidates %s", specs[j].ID, order, o2.best, o2.ecmp, firstRem[j].best, firstRem[j].ecmp, describe(specs)), Case: k})
+				}
+				if o2 != *firstRem[j] {
+					r.Violate(vf.Violation{Clause: "order-dependence", Features: vf.F("mix", mix, "attrs", union(specs), "phase", "remove"), Detail: fmt.Sprintf("after removing #%d: insertion order %v gives best={%s} ecmp={%s}, a table that only ever held the remaining candidates gives best={%s} ecmp={%s}; candidates %s", specs[j].ID, order, o2.best, o2.ecmp, firstRem[j].best, firstRem[j].ecmp, describe(specs)), Case: k})
 				}
 			}
 		}()
